@@ -342,6 +342,7 @@ func c20(x *mon.Ctx) {
 			x.Note("retry/same-schedule-under-shorter-timeout", param, ok, false, true)
 		}
 	}
+	retryOverRealHTTP(x)
 	x.Require("retry/same-schedule-under-shorter-timeout", 3, 0, 3)
 	x.Require("retry/fail-forever", 0, 20, 20)
 	x.Require("retry/k-failures-then-success", 30, 5, 60)
